@@ -79,9 +79,7 @@ class C18(Prop):
     # ---- model-free oracle: compiled programs against the real proc-macro ---------------
     def oracle(self, tier, rng, suspicious):
         from .. import run as R
-        cases = self.cases(tier, rng)
-        # the oracle needs the concrete input text: take it from the model run (input printing only)
-        results = R.run_cases(cases)
+        results = self.l1_results or R.run_cases(self.cases(tier, rng))
         mods, rej = [], []
         for r in results:
             m = r.meta
